@@ -18,6 +18,10 @@
 (* C01-C04/C13 require.  cycle_no_restart and default_no_done describe     *)
 (* the pinned tree before the two fix: commits; no_deactivate and          *)
 (* auto_keeps_request are mutations used to show the invariants have teeth.*)
+(* nested_consumes_request is the pinned tree before fix D7: the execute()  *)
+(* nested inside next_state_now() cleared the engage request when it ended,*)
+(* so a second next_state_now() from the same state function ran           *)
+(* unrequested - its target was dropped and the machine stopped.           *)
 (***************************************************************************)
 EXTENDS Integers, Sequences, FiniteSets, TLC
 
@@ -41,19 +45,25 @@ VARIABLES
     latchSet,\* the latch exists: on_enable() or done() ran at least once (on_iteration() before that is
              \* outside the lifecycle the selector guarantees; MC/Sim do not explore it)
     stack,   \* state functions currently executing (next_state_now re-enters execute)
-    acted,   \* the innermost state function already performed its one in-state action
+    acted,   \* number of in-state actions (next_state, next_state_now, done, engage) performed so far in the
+             \* current outermost iteration (a state function may perform several; MC bounds the number)
     req,     \* se as sampled when the outermost execute() began
     post,    \* the last step completed an outermost execute()
     ncalls,  \* state functions called in the current outermost iteration
     nsn,     \* next_state_now() calls in the current outermost iteration
     dflag,   \* done()/on_disable() was called since the last engage()
+    udone,   \* done() was called (by user code, or by an execute() nested in next_state_now) while a state function
+             \* of the current outermost iteration was running.  A state function that
+             \* selects a state (next_state, next_state_now, engage) AFTER calling done() leaves a state pending on
+             \* a stopped machine; the transitions below describe that too (the acceptor judges such traces), but
+             \* the invariants are stated for, and MC explores, programs that do not do it (DESIGN 6).
     pure,    \* since the machine (re)started only expiry-driven transitions happened
     inAuto,  \* the current outermost iteration was started by on_iteration()
     out,     \* callbacks produced by the last step (observation)
     br       \* branch labels taken by the last step (clause ownership)
 
 mvars == <<sh, se, eng, cur, start, now, ran, st0, exp, dur, ntcur, autoOn, latchSet, stack, acted, req, post,
-           ncalls, nsn, dflag, pure, inAuto, out, br>>
+           ncalls, nsn, dflag, udone, pure, inAuto, out, br>>
 
 States   == sh.states
 IsDef(s) == s = sh.default
@@ -68,8 +78,8 @@ Init(shape) ==
     /\ st0 = [s \in shape.states |-> 0]
     /\ exp = [s \in shape.states |-> Inf]
     /\ dur = [s \in shape.states |-> shape.durOf[s]]
-    /\ ntcur = "" /\ autoOn = FALSE /\ latchSet = FALSE /\ stack = <<>> /\ acted = FALSE /\ req = FALSE /\ post = FALSE
-    /\ ncalls = 0 /\ nsn = 0 /\ dflag = FALSE /\ pure = FALSE /\ inAuto = FALSE
+    /\ ntcur = "" /\ autoOn = FALSE /\ latchSet = FALSE /\ stack = <<>> /\ acted = 0 /\ req = FALSE /\ post = FALSE
+    /\ ncalls = 0 /\ nsn = 0 /\ dflag = FALSE /\ udone = FALSE /\ pure = FALSE /\ inAuto = FALSE
     /\ out = <<>> /\ br = <<>>
 
 (* the part of the state execute() works on, as a record, so that execute() is one operator *)
@@ -86,6 +96,7 @@ RDone(r) == [r EXCEPT !.cur = None, !.eng = FALSE, !.ntcur = "",
                       !.autoOn = IF sh.auto THEN FALSE ELSE @,
                       !.out = Append(@, [e |-> "done"])]
 Tag(r, b) == [r EXCEPT !.br = Append(@, b)]
+NestedConsumes == "nested_consumes_request" \in Dev
 
 (***************************************************************************)
 (* execute() from its entry up to (and including) the call of one state    *)
@@ -144,7 +155,7 @@ Commit(r) ==
     /\ out' = r.out /\ br' = r.br
 
 AtTop   == stack = <<>>
-InState == stack # <<>> /\ ~acted
+InState == stack # <<>>
 
 (***************************************************************************)
 (* public calls made between iterations                                    *)
@@ -158,27 +169,29 @@ Engage(init, force) ==
            go  == force \/ cur = None \/ cur = sh.default
            r2  == IF go THEN [RNextState(r1, tgt) EXCEPT !.pure = FALSE] ELSE r1
        IN Commit(r2)
-    /\ acted' = (stack # <<>>)
+    /\ acted' = (IF stack # <<>> THEN acted + 1 ELSE 0)
     /\ post' = FALSE /\ dflag' = FALSE
-    /\ UNCHANGED <<sh, now, dur, stack, req, ncalls, nsn, inAuto, latchSet>>
+    /\ req' = (req \/ stack # <<>>)      \* an engage() made by the running state function counts for this iteration
+    /\ UNCHANGED <<sh, now, dur, stack, ncalls, nsn, udone, inAuto, latchSet>>
 
 UserDone ==        \* done() or on_disable(), between iterations or from inside a state function
     /\ (AtTop \/ InState)
     /\ Commit(RDone(Rec))
-    /\ acted' = (stack # <<>>) /\ post' = FALSE /\ dflag' = TRUE
+    /\ acted' = (IF stack # <<>> THEN acted + 1 ELSE 0) /\ post' = FALSE /\ dflag' = TRUE
+    /\ udone' = (stack # <<>>)
     /\ latchSet' = (latchSet \/ sh.auto)
     /\ UNCHANGED <<sh, now, dur, stack, req, ncalls, nsn, inAuto>>
 
 Tick(d) ==
     /\ AtTop /\ now' = now + d /\ out' = <<>> /\ br' = <<>> /\ post' = FALSE
     /\ UNCHANGED <<sh, se, eng, cur, start, ran, st0, exp, dur, ntcur, autoOn, latchSet, stack, acted, req,
-                   ncalls, nsn, dflag, pure, inAuto>>
+                   ncalls, nsn, dflag, udone, pure, inAuto>>
 
 SetDur(s, d) ==    \* a NetworkTables client writes the duration topic
     /\ AtTop /\ s \in States /\ Timed(s) /\ dur' = [dur EXCEPT ![s] = d]
     /\ out' = <<>> /\ br' = <<>> /\ post' = FALSE /\ pure' = FALSE
     /\ UNCHANGED <<sh, se, eng, cur, start, now, ran, st0, exp, ntcur, autoOn, latchSet, stack, acted, req,
-                   ncalls, nsn, dflag, inAuto>>
+                   ncalls, nsn, dflag, udone, inAuto>>
 
 (***************************************************************************)
 (* execute(), state functions, return                                      *)
@@ -190,36 +203,40 @@ EnterExec(r0, top, auto) ==
     LET x == Exec(r0) IN
     /\ latchSet' = (latchSet \/ (sh.auto /\ \E i \in 1..Len(x.r.out) : x.r.out[i].e = "done"))
     /\ IF x.call # None
-       THEN /\ Commit(x.r) /\ stack' = Append(stack, x.call) /\ acted' = FALSE /\ post' = FALSE
+       THEN /\ Commit(x.r) /\ stack' = Append(stack, x.call) /\ acted' = (IF top THEN 0 ELSE acted + 1) /\ post' = FALSE
             /\ ncalls' = (IF top THEN 0 ELSE ncalls) + 1
-       ELSE /\ LET r1 == IF x.early THEN x.r ELSE [x.r EXCEPT !.se = FALSE]
+       ELSE /\ LET consumes == top \/ NestedConsumes
+                   r1 == IF x.early \/ ~consumes THEN x.r ELSE [x.r EXCEPT !.se = FALSE]
                IN Commit(IF top THEN LatchAfter(r1, auto) ELSE r1)
-            /\ stack' = stack /\ acted' = (stack # <<>>) /\ post' = top
+            /\ stack' = stack /\ acted' = (IF top THEN 0 ELSE acted + 1) /\ post' = top
             /\ ncalls' = (IF top THEN 0 ELSE ncalls)
 
 CallExecute ==
     /\ AtTop /\ req' = se /\ nsn' = 0 /\ inAuto' = FALSE
-    /\ EnterExec(Rec, TRUE, FALSE)
+    /\ EnterExec(Rec, TRUE, FALSE) /\ udone' = FALSE
     /\ UNCHANGED <<sh, now, dur, dflag>>
 
 UserNextState(s) ==
     /\ InState /\ s \in States
-    /\ Commit([RNextState(Rec, s) EXCEPT !.pure = FALSE]) /\ acted' = TRUE /\ post' = FALSE
-    /\ UNCHANGED <<sh, now, dur, stack, req, ncalls, nsn, dflag, inAuto, latchSet>>
+    /\ Commit([RNextState(Rec, s) EXCEPT !.pure = FALSE]) /\ acted' = acted + 1 /\ post' = FALSE
+    /\ UNCHANGED <<sh, now, dur, stack, req, ncalls, nsn, dflag, udone, inAuto, latchSet>>
 
 NextStateNow(s) ==
     /\ InState /\ s \in States
     /\ nsn' = nsn + 1
     /\ EnterExec([RNextState(Rec, s) EXCEPT !.pure = FALSE], FALSE, FALSE)
+    /\ udone' = (udone \/ \E i \in 1..Len(out') : out'[i].e = "done")    \* the nested execute() stopped the machine
     /\ UNCHANGED <<sh, now, dur, req, dflag, inAuto>>
 
 Return ==
     /\ stack # <<>>
     /\ stack' = SubSeq(stack, 1, Len(stack) - 1)
-    /\ acted' = (Len(stack) > 1)
-    /\ se' = FALSE /\ out' = <<>> /\ br' = <<>> /\ post' = (Len(stack) = 1)
+    /\ acted' = acted
+    \* the request belongs to the iteration: only the outermost execute() consumes it (D7)
+    /\ se' = (IF Len(stack) = 1 \/ NestedConsumes THEN FALSE ELSE se)
+    /\ br' = <<>> /\ out' = <<>> /\ post' = (Len(stack) = 1)
     /\ autoOn' = IF Len(stack) = 1 /\ inAuto THEN eng ELSE autoOn
-    /\ UNCHANGED <<sh, eng, cur, start, now, ran, st0, exp, dur, ntcur, req, ncalls, nsn, dflag,
+    /\ UNCHANGED <<sh, eng, cur, start, now, ran, st0, exp, dur, ntcur, req, ncalls, nsn, dflag, udone,
                    pure, inAuto, latchSet>>
 
 (***************************************************************************)
@@ -229,7 +246,7 @@ AEnable ==
     /\ AtTop /\ sh.auto
     /\ autoOn' = TRUE /\ latchSet' = TRUE /\ out' = <<>> /\ br' = <<>> /\ post' = FALSE
     /\ UNCHANGED <<sh, se, eng, cur, start, now, ran, st0, exp, dur, ntcur, stack, acted, req,
-                   ncalls, nsn, dflag, pure, inAuto>>
+                   ncalls, nsn, dflag, udone, pure, inAuto>>
 
 AIter ==           \* on_iteration(): if latched, engage(); execute(); latch := is_executing
     /\ AtTop /\ sh.auto
@@ -238,11 +255,11 @@ AIter ==           \* on_iteration(): if latched, engage(); execute(); latch := 
                    r2 == IF cur = None \/ cur = sh.default
                          THEN [RNextState(r1, sh.first) EXCEPT !.pure = FALSE] ELSE r1
                IN EnterExec(r2, TRUE, TRUE)
-            /\ req' = TRUE /\ nsn' = 0 /\ inAuto' = TRUE /\ dflag' = FALSE
+            /\ req' = TRUE /\ nsn' = 0 /\ inAuto' = TRUE /\ dflag' = FALSE /\ udone' = FALSE
             /\ UNCHANGED <<sh, now, dur>>
        ELSE /\ out' = <<>> /\ br' = <<"AutoIdle">> /\ post' = FALSE
             /\ UNCHANGED <<sh, se, eng, cur, start, now, ran, st0, exp, dur, ntcur, autoOn, latchSet,
-                           stack, acted, req, ncalls, nsn, dflag, pure, inAuto>>
+                           stack, acted, req, ncalls, nsn, dflag, udone, pure, inAuto>>
 
 ADisable == UserDone /\ sh.auto
 
